@@ -421,3 +421,25 @@ func c02Merges(c *mc.Ctx) {
 	}
 	c.Ev.AddScenario(mc.Scenario{Name: "eight-pids-sequential", SpaceSize: int64(len(perms)), Executed: int64(len(perms)), Exhaustive: true, Bound: "8 PIDs, one unit each, 16 PID orders; every unit is delivered only by the end-of-stream drain"})
 }
+
+// SplitHeaderStream: PAT and PMT units of several sections, packetised so that only the
+// table_id of the last section is in the first packet (its section_length bytes follow in the
+// next packet) - exercises the "section header not complete yet" path of the early PSI flush.
+func SplitHeaderStream(seed int64) []byte {
+	kinds := c02Kinds(seed)
+	var out []byte
+	for ki := range kinds {
+		k := &kinds[ki]
+		if k.Name != "pat-3-sections" && k.Name != "pmt-6-packets-2-sections" {
+			continue
+		}
+		u := k.Make(0, 0)
+		first := lastSectionStart(u) + 1
+		for _, ch := range [][]int{{first}, {first + 1}, nil} {
+			if st, _, ok := buildC02(k, c02Case{Kind: k.Name, Chunks: ch, Second: true}, seed); ok {
+				out = append(out, st.Bytes...)
+			}
+		}
+	}
+	return out
+}
